@@ -492,7 +492,33 @@ def eq(ctx, r1: Rope, r2: Rope):
     if not _same(l1, l2):
         conj.append(Z(l1) == Z(l2))
     a, b = list(r1.segs), list(r2.segs)
+
+    def settle(lst):
+        """Resolve the head segment's length through the solver: drop it when empty, concretise Zeros."""
+        while lst:
+            h = lst[0]
+            ln = h.length
+            if isinstance(ln, int):
+                return
+            v = resolve_int(ctx, ln)
+            if not isinstance(v, int):
+                return
+            if v == 0:
+                lst.pop(0)
+                continue
+            if isinstance(h, Zeros):
+                lst[0] = Lit(b"\x00" * v) if v <= 65536 else Zeros(v)
+            elif isinstance(h, Atom):
+                if h.is_full():
+                    KNOWN_LEN[h.term.get_id()] = (h.term, v)
+                lst[0] = Atom(h.term, h.lo, _add(h.lo, v))
+            return
+
     while a and b:
+        settle(a)
+        settle(b)
+        if not a or not b:
+            break
         s, t = a[0], b[0]
         ls, lt = s.length, t.length
         if _same(ls, lt):
